@@ -18,7 +18,7 @@ def handle (s : S) (i : Nat) (j : Json) : S × List Json :=
     let failed := (fld j "blockErr") != .null || (fld j "blockPanic") != .null
     -- the environment the harness builds: usdc entry, valid revenue address, non-zero blocks per year; fee conversions may fail
     let env : Env := { usdcEntry := true, revenueAddrValid := true, blocksPerYearNonzero := true, conversionFails := true,
-                       bankSendFails := false, edenPriceZero := false, mintFails := false }
+                       bankSendFails := false, edenPriceZero := false, edenAllocs := [] }
     let predictedOk := match endBlockOutcome true env with | .ok _ => true | .error _ => false
     if failed then
       (s, (if predictedOk then [verdictDiff i "block processing" (Json.str "ok") (Json.mkObj [("blockErr", fld j "blockErr"), ("blockPanic", fld j "blockPanic")])] else []) ++
